@@ -59,7 +59,20 @@ def seq_unit(seqs, idx, with_bad):
             cur = {}
             tag = "s%d" % si
             ok_steps = 0
+            originals = []
             for k, fname in enumerate(seq):
+                if fname == "EVAL":
+                    # compile and evaluate at the current binding (closures now exist)
+                    if len(cur) == len(names):
+                        m.ode(x, t)
+                        m.grad(x, t)
+                    continue
+                if fname == "COPY":
+                    # carry on with a deep copy; the original keeps ITS binding and is checked at the end too
+                    import copy
+                    originals.append((m, dict(cur)))
+                    m = copy.deepcopy(m)
+                    continue
                 if fname.startswith("BAD:"):
                     mk = lambda nm: c.real("%s_%d_%s" % (tag, k, nm))
                     label, obj = [b for b in bad_inputs(names, mk) if b[0] == fname[4:]][0]
@@ -86,6 +99,13 @@ def seq_unit(seqs, idx, with_bad):
             G_ref = [[expr.ev(expr.d(e, p), env) for p in names] for e in spec.rhs()]
             c.prove(all_close(m.ode(x, t), f_ref, c), "[%s] ode(x,t) uses that binding" % "|".join(seq))
             c.prove(all_close(m.grad(x, t), G_ref, c), "[%s] grad(x,t) uses that binding" % "|".join(seq))
+            for m0, cur0 in originals:
+                if len(cur0) < len(names):
+                    continue
+                env0 = dict(env)
+                env0.update(cur0)
+                f0 = [expr.ev(e, env0) for e in spec.rhs()]
+                c.prove(all_close(m0.ode(x, t), f0, c), "[%s] the model that was copied still evaluates with its own values" % "|".join(seq))
     return Unit("C09.sequences[chunk %d: %d sequences, first=%s]" % (idx, len(seqs), "|".join(seqs[0])), h,
                 bounds={"params": 3, "sequences": len(seqs), "max_length": max(len(s) for s in seqs)},
                 program={"chunk": idx, "first": list(seqs[0]), "n": len(seqs)}, n_programs=len(seqs), max_paths=5)
@@ -99,7 +119,8 @@ class C09(Check):
                    "permutations, dict by name, dict by Symbol, every partial dict) and every sequence of successive assignments up to the stated "
                    "length, including rejected inputs (wrong lengths, an unknown name in each position, 2-D array, too many keys) interleaved. "
                    "z3 proves that afterwards each named parameter holds the last value supplied for that name and that ode/grad evaluate with "
-                   "that binding; rejected inputs must raise and must not leak into later evaluations.")
+                   "that binding; rejected inputs must raise and must not leak into later evaluations.  Histories with evaluations and copy.deepcopy: "
+                   "values assigned to a copy are used by the copy, and the model that was copied keeps evaluating with its own values.")
     assumptions = ["stochastic-parameter forms are covered by C16", "a partial update needs an earlier full assignment (otherwise unmentioned names have no value)"]
 
     def units(self, tier, seed):
@@ -112,6 +133,12 @@ class C09(Check):
         seqs += [(a, b) for a in full for b in fl]
         seqs += [(a, b, d) for a in full[::3] for b in bad for d in (part[0], part[5], full[1])]
         seqs += [(b, a) for b in bad for a in full[:2]]
+        # histories with evaluation and deep copies: values assigned to a copy are used by the copy (and only by it)
+        for a in (full[0], full[3], "dict_str"):
+            for b in (full[1], part[2], "dict_symbol", "ndarray"):
+                seqs.append((a, "EVAL", "COPY", b))
+                seqs.append((a, "COPY", b))
+                seqs.append((a, "EVAL", "COPY", b, "EVAL", "COPY", part[0]))
         if tier != "quick":
             seqs += [(a, b, d) for a in full[::2] for b in fl[::2] for d in fl[::3]]
             seqs += [(a, p1, b, p2) for a in full[::4] for p1 in part[::3] for b in bad[::2] for p2 in part[1::4]]
